@@ -78,6 +78,17 @@ def handwritten():
         ('label', 'a'), ('instr', 'nop', None), ('if', 1, [('org', ('+', V('v1'), C(0x2000)), None)], [('align', C(64))]),
         ('label', 'b'), ('data', '.2byte', [L('a'), L('b')]), ('if', 0, [('zero', C(5))], [('align', C(8)), ('fill', V('n'), C(1))]),
         ('label', 'c'), ('data', '.2byte', [L('c')])], consts=('v1', 'n')))
+    # a GLOBAL zone predefined by the ISA: the first line still sits at the default origin, later returns to GLOBAL
+    # continue after its bytes
+    S.append(mk('hw:predefined-global', [
+        ('label', 'a'), ('instr', 'nop', None), ('data', '.2byte', [L('a'), L('b')]), ('memzone', 'ZB'), ('label', 'z'),
+        ('data', '.byte', [C(1)]), ('memzone', 'GLOBAL'), ('label', 'b'), ('instr', 'ld16', L('z'))], consts=(),
+        origin=Sym('o0', 0, 0x90), global_zone=(Sym('gs', 0, 0x40), Sym('ge', 0x60, 0x3fff)), zones={'ZB': (0x50, 0x5f)},
+        expect=('ok', 'rejected')))
+    S.append(mk('hw:predefined-global-org', [
+        ('label', 'a'), ('data', '.byte', [C(7)]), ('org', V('v1'), None), ('label', 'b'), ('data', '.2byte', [L('a'), L('b')]),
+        ('org', C(3), 'GLOBAL'), ('label', 'c'), ('data', '.2byte', [L('c')])], consts=('v1',),
+        origin=Sym('o0', 0, 0x90), global_zone=(Sym('gs', 0, 0x40), Sym('ge', 0x60, 0x3fff)), expect=('ok', 'rejected')))
     S.append(mk('hw:zones', [
         ('instr', 'nop', None), ('memzone', 'ZA'), ('label', 'za1'), ('data', '.byte', [C(1), C(2)]), ('memzone', 'GLOBAL'),
         ('label', 'g1'), ('instr', 'nop', None), ('memzone', 'ZA'), ('label', 'za2'), ('data', '.2byte', [L('za1'), L('g1')]),
